@@ -157,13 +157,37 @@ fn gen_package(seed: u64, dst: &Path) {
         let k = if rng.chance(1, 2) { 7 } else { 7 + i };
         s.push_str(&format!("fn helper{i}(x: u64) -> u64 {{\n    let mut acc = x;\n    let mut j = 0;\n    while j < {k} {{\n        acc = acc * 3 + j;\n        j += 1;\n    }}\n    acc\n}}\n\n"));
     }
+    // a function with demotable (b256 / string-array) constants in several different blocks
+    let nb = rng.range(2, 5);
+    s.push_str("fn branchy(x: u64) -> b256 {\n");
+    for i in 0..nb {
+        s.push_str(&format!("    if x == {i} {{\n        return 0x{:064x};\n    }}\n", rng.next_u64()));
+    }
+    s.push_str(&format!("    let mut i = 0;\n    let mut r: b256 = 0x{:064x};\n    while i < x {{\n        if i == 3 {{\n            r = 0x{:064x};\n        }}\n        i += 1;\n    }}\n    r\n}}\n\n", rng.next_u64(), rng.next_u64()));
+    // a function with more simultaneously live values than there are registers (spills), many of equal priority,
+    // some of them loop-carried
+    let nl = rng.range(40, 56);
+    s.push_str("fn heavy(x: u64) -> u64 {\n");
+    for i in 0..nl {
+        s.push_str(&format!("    let mut a{i} = x + {};\n", i + 1));
+    }
+    s.push_str("    let mut k = 0;\n    while k < x {\n");
+    for i in 0..nl {
+        s.push_str(&format!("        a{i} = a{i} + a{};\n", (i + 7) % nl));
+    }
+    // (one long `a0 + a1 + …` expression makes the type checker take minutes: accumulate by statements)
+    s.push_str("        k += 1;\n    }\n    let mut acc = 0;\n");
+    for i in 0..nl {
+        s.push_str(&format!("    acc = acc + a{i};\n"));
+    }
+    s.push_str("    acc\n}\n\n");
     s.push_str("impl Gen for Contract {\n");
     for i in 0..n_fns {
         let t = i % n_structs;
         let h = i % n_dups;
         let lit = format!("0x{:064x}", rng.next_u64());
         s.push_str(&format!(
-            "    #[storage(read, write)]\n    fn f{i}(x: u64, s: S{t}) -> E{t} {{\n        let y = helper{h}(x) + s.a;\n        let k: b256 = {lit};\n        log(\"fn{i}-{}\");\n        if y > {} && k == s.b {{\n            E{t}::A(y)\n        }} else if y == 3 {{\n            E{t}::C\n        }} else {{\n            E{t}::B(s)\n        }}\n    }}\n",
+            "    #[storage(read, write)]\n    fn f{i}(x: u64, s: S{t}) -> E{t} {{\n        let y = helper{h}(x) + s.a + heavy(x);\n        let k: b256 = if x > 9 {{ branchy(x) }} else {{ {lit} }};\n        log(\"fn{i}-{}\");\n        if y > {} && k == s.b {{\n            E{t}::A(y)\n        }} else if y == 3 {{\n            E{t}::C\n        }} else {{\n            E{t}::B(s)\n        }}\n    }}\n",
             rng.below(5),
             rng.next_u64() % 1000
         ));
@@ -226,6 +250,10 @@ fn build(pkg: &Pkg, release: bool, v: &Variation, slot: &Path) -> BuildOut {
         if !rel.ends_with('/') {
             artifacts.insert(rel, bytes);
         }
+    }
+    if std::env::var("C15_KEEP").is_ok() && o.code != Some(0) {
+        let _ = std::fs::write("/tmp/c15-fail.txt", format!("{}\n{}", o.stdout, o.stderr));
+        let _ = std::fs::copy(dir.join("src/main.sw"), "/tmp/c15-fail-main.sw");
     }
     let _ = std::fs::remove_dir_all(slot);
     BuildOut { ok: o.code == Some(0) && !o.timed_out, artifacts, stderr_tail: crate::c30::strip_ansi(&o.stderr).lines().rev().take(3).collect::<Vec<_>>().join(" | "), notes: sl.notes, other_thread_fs_calls: sl.other_thread }
